@@ -54,6 +54,7 @@ Members == { [op |-> "base", ops |-> BaseOps(49)],
              [op |-> "base", ops |-> <<ReqOp(<<68>>, <<"i8", U(-3)>>), [op |-> "base", ops |-> BaseOps(50)], ReqOp(<<69>>, <<"bool", <<"bool", TRUE>>>>)>>],
              ReqOp(<<107>>, <<"i16", U(200)>>), [op |-> "req", ki |-> 200, t |-> "str", v |-> S(<<120>>)],
              [op |-> "req", ki |-> -7, t |-> "u8", v |-> U(255)],
+             [op |-> "req", ki |-> 0, t |-> "str", v |-> S(<<122>>)],            \* the integer key 0
              [op |-> "req", ki |-> 5, t |-> "vec_u8", v |-> <<"bin", <<1, 2, 3>>>>],          \* a byte container under a non-string key stays binary
              [op |-> "obj", ks |-> <<111>>, ops |-> <<ReqOp(<<120>>, <<"i64", U(40000)>>), ReqOp(<<121>>, <<"tp_ns", <<"ts", TRUE, Bytes8(0,0,0,0,0,0,0,2), 500000000>>>>)>>],
              [op |-> "arr", ks |-> <<114>>, ops |-> <<ElemOp(<<"vec_u8", <<"bin", <<1, 2>>>>>>), ElemOp(<<"u32", U(70000)>>)>>] }
